@@ -76,12 +76,12 @@ extern "C" void vh_c09_readonly() {
 }
 
 extern "C" void vh_c09_readwrite_overwrite() {
-    nixsym_declare_reach("rw"); nixsym_declare_reach("ow"); nixsym_declare_reach("absent");
+    nixsym_declare_reach("rw"); nixsym_declare_reach("ow"); nixsym_declare_reach("absent"); nixsym_declare_reach("raw");
     World w;
     build_world(w);
     std::string content = observe(w.f);
     drop_handles(w); w.f.close();
-    uint32_t which = nixsym_choice("case", 4);
+    uint32_t which = nixsym_choice("case", 5);
     if (which == 0) {           // ReadWrite keeps everything
         File g = File::open(WORLD_FILE, FileMode::ReadWrite);
         nixsym_assert(observe(g) == content, "ReadWrite opens an existing file with all prior content intact");
@@ -104,6 +104,15 @@ extern "C" void vh_c09_readwrite_overwrite() {
         File g = File::open("absent.h5", FileMode::ReadWrite);
         nixsym_assert(g.isOpen() && g.blockCount() == 0 && g.format() == "nix", "ReadWrite creates the file if absent");
         nixsym_reach("absent");
+    } else if (which == 4) {    // a file that is not an HDF5 file at all: empty placeholder or arbitrary bytes
+        long long size = nixsym_choice("rawsize", 2) == 0 ? 0 : 37;
+        h5m_make_raw_file("raw.bin", size);
+        unsigned long long m0 = h5m_file_mutations("raw.bin");
+        bool threw = false, writable = false;
+        try { File g = File::open("raw.bin", FileMode::ReadOnly); try { g.createBlock("x", "t"); writable = true; } catch (const std::exception &) {} } catch (const std::exception &) { threw = true; }
+        nixsym_assert(threw && !writable, "ReadOnly on a file that is not a NIX file is refused");
+        nixsym_assert(h5m_file_mutations("raw.bin") == m0 && h5m_file_size("raw.bin") == size, "and the file is left untouched");
+        nixsym_reach("raw");
     } else {                    // plain HDF5 file without NIX header
         h5m_make_plain_file("plain.h5");
         uint32_t m = nixsym_choice("mode", 2);
